@@ -62,12 +62,27 @@ TPickW == /\ Ev.ev = "pickw" /\ ~dead
              ELSE Mark("ReplyOK") /\ dead' = TRUE
           /\ hist' = <<>> /\ fresh' = FALSE /\ reply' = NoReply /\ UNCHANGED <<w, avail, conns>>
 
+\* C01 "slow start finished": from the instant the ramp-up period is over the shares must be the
+\* configured ones again.  The smooth state is not restarted at that instant, so single windows are
+\* not judged; over L picks each backend's count must stay within 2W of L*w/W.
+TSsDone == /\ Ev.ev = "ssdone" /\ ~dead /\ hist' = <<>> /\ fresh' = FALSE /\ reply' = NoReply
+           /\ UNCHANGED <<w, avail, conns, dead, bad>>
+TPShare == /\ Ev.ev = "pshare" /\ ~dead
+           /\ IF Ev.b \in Eligible THEN hist' = Append(hist, Ev.b) /\ UNCHANGED <<dead, bad>>
+              ELSE Mark("ReplyOK") /\ dead' = TRUE /\ UNCHANGED hist
+           /\ UNCHANGED <<w, avail, conns, fresh, reply>>
+TShareCheck == /\ Ev.ev = "sharecheck" /\ ~dead
+               /\ IF W > 0 /\ \E b \in Eligible :
+                        LET d == Count(b, hist) * W - Len(hist) * w[b] IN d > 2 * W * W \/ (0 - d) > 2 * W * W
+                    THEN Mark("ShareAfterSlowStart") /\ dead' = TRUE ELSE UNCHANGED <<dead, bad>>
+               /\ UNCHANGED pvars
+
 TFlip == /\ Ev.ev = "flip" /\ ~dead /\ PFlip(Ev.b) /\ UNCHANGED <<dead, bad>>
 TConn == /\ Ev.ev = "conn" /\ ~dead /\ PConn(Ev.b, Ev.d) /\ UNCHANGED <<dead, bad>>
 TUpdate == /\ Ev.ev = "update" /\ ~dead /\ PUpdate(Ev.w, Ev.av, Ev.cn) /\ UNCHANGED <<dead, bad>>
 
 TNext == /\ l <= Len(Trace) /\ l' = l + 1
-         /\ (TLoad \/ Skip \/ TPick \/ TPickW \/ TFlip \/ TConn \/ TUpdate)
+         /\ (TLoad \/ Skip \/ TPick \/ TPickW \/ TSsDone \/ TPShare \/ TShareCheck \/ TFlip \/ TConn \/ TUpdate)
 TSpec == TInit /\ [][TNext]_tvars
 
 \* printed when the whole trace has been consumed
